@@ -676,8 +676,19 @@ impl Gen {
         }
         let instr = build(&ops, plan.as_ref().map(|p| p.op))?;
         let mut enc = Encoder::new(64);
-        enc.encode(&instr, pre.rip).ok()?;
-        let bytes = enc.take_buffer();
+        // direct branches now and then carry a prefix the architecture ignores there (branch hints 2E / 3E, REX.W, the BND prefix F2):
+        // the instruction is one byte longer - and so is the return address of a CALL, the fall-through address of a Jcc
+        let direct = (0..oc.op_count()).any(|i| matches!(oc.op_kind(i), K::br64_1 | K::br64_4));
+        let prefix: Option<u8> = if direct && family != "prog" && family != "two" && family != "bytes" && self.rng.gen_bool(0.15) {
+            Some(self.pick(&[0x2eu8, 0x3e, 0x48, 0xf2]))
+        } else {
+            None
+        };
+        enc.encode(&instr, pre.rip + prefix.is_some() as u64).ok()?;
+        let mut bytes = enc.take_buffer();
+        if let Some(pb) = prefix {
+            bytes.insert(0, pb);
+        }
         if bytes.is_empty() || bytes.len() > 15 {
             return None;
         }
